@@ -187,7 +187,7 @@ def main():
         "engines": engines,
         "checks": checks,
         "not_applicable": na,
-        "notes": "Exit codes of every check: 0 held / only listed known findings; 1 replayed violation (VIOLATION line); 2 inconclusive. Fix commits in /repo are listed in known_findings.json as fixed entries.",
+        "notes": "Exit codes of every check: 0 held / only listed known findings; 1 replayed violation (VIOLATION line); 2 inconclusive (never a pass). Tiers: quick_cmd runs the quick harnesses of the property (each check finishes in 2-8 min on an idle 16-core machine); thorough_cmd adds the harnesses that are decided but need 5-15 min each; harnesses that were never decided within the caps tried (tier `attempt`) are run by no registered command (./check <ID> --tier attempt). Fix commits in /repo (nine, F1-F9) are listed in known_findings.json as fixed entries, which suppress nothing. Seeded changes and their outcomes: /verif/seeded and DESIGN.md section 11.3.",
     }
     json.dump(m, open(os.path.join(VERIF, "MANIFEST.json"), "w"), indent=1)
     print("claimed:", [c["property_id"] for c in checks])
